@@ -7,7 +7,7 @@ digested before/after; results must not alias the input unless in_place.
 """
 import numpy as np
 
-from .. import monitor
+from .. import sanit, monitor
 from ..common import rng_for, close
 
 LEVEL = "exploration"
@@ -350,10 +350,15 @@ def run_shard(spec, rec):
         from .. import suite
 
         return suite.run(__name__.rsplit(".", 1)[-1], spec, rec)
+    import pydrobert.speech.post as _sut
+
+    sanit.install([_sut])  # poison-fill sanitizer: np.empty results are pre-filled with NaN while this shard runs
     mon = Mon(rec)
     mon.attach()
     for case in spec["cases"]:
         run_case(case, rec, mon)
+    rec.count("sanitizer_np_empty_intercepted", sanit.COUNTS["empty"] + sanit.COUNTS["empty_like"])
+    sanit.uninstall([_sut])
     monitor.report(rec)
     monitor.detach_all()
 
